@@ -25,9 +25,10 @@ def snapshot(vars_):
         fs = None
         if isinstance(mf, dict) and mf:
             fs = sum(mf.values())
-        out.append("(mkV %d %d %s %s %s %s %s %s %s)" % (
+        out.append("(mkV %d %d %s %s %s %s %s %s %s %s %s)" % (
             v, cid, struct_term(f.structure), "true" if isinstance(f.structure, list) else "false",
-            enc(f.density), optstr_term(f.name), enc(mass), enc(charge), enc(fs)))
+            enc(f.density), optstr_term(f.name), enc(mass), enc(charge), enc(fs), cstr(str(f)),
+            struct_term(f.hill.structure)))
     return "[" + "; ".join(out) + "]"
 
 
